@@ -17,6 +17,7 @@ class NotInDomain(Exception):
     pass
 
 
+WRAP_NUM = False      # when True, numbers without unit are built as hszinc.Quantity(v) instead of bare int / float
 SUBCLASS = False      # when True, leaf values are built as instances of *subclasses* of the value types
 
 
@@ -79,6 +80,8 @@ def _to_hs(n):
         return n[1]
     if k == 'num':
         if n[2] is None:
+            if WRAP_NUM and not isinstance(n[1], bool):
+                return hszinc.Quantity(n[1])         # a Quantity without unit: the same number
             return n[1]
         return hszinc.Quantity(n[1], n[2])
     if k == 'str':
